@@ -78,3 +78,13 @@ Definition min_iter_diverges_refuted_stmt : Prop :=
 Definition mc_fixpoint_diverges_stmt : Prop :=
   forall g c st, all_done g st = false -> mc_pass g c (ridxs g) st = Done st ->
     forall fuel, mc_loop fuel g c st = OutOfFuel.
+
+(* what the fixpoint-detecting runner reports is what the mirrored loop does *)
+Definition mc_run_spec_stmt : Prop :=
+  forall g c fuel,
+    match rule_min_costs_run fuel g c with
+    | McDone l => exists fuel', rule_min_costs_m fuel' g c = Done l
+    | McPanic => exists fuel', rule_min_costs_m fuel' g c = Panic
+    | McDiverges => forall fuel', rule_min_costs_m fuel' g c = OutOfFuel
+    | McFuel => True
+    end.
